@@ -46,8 +46,9 @@ EXC_KINDS: List[str] = ['value', 'key', 'type', 'assert', 'runtime', 'custom', '
 
 def logical_call(ch: Choices, tok: str, allow_fail: bool = True, allow_notification: bool = True,
                  positional_only: bool = False, zero_ok: bool = False, extra_codes: Tuple[int, ...] = (),
-                 extra_messages: Tuple[str, ...] = ()) -> LogicalCall:
-    weights = [4, 2, 1, 2, 3 if allow_fail else 0, 2 if allow_fail else 0, 1, 2, 2, 1, 2]
+                 extra_messages: Tuple[str, ...] = (), exotic: bool = False, allow_single: bool = False) -> LogicalCall:
+    weights = [4, 2, 1, 2, 3 if allow_fail else 0, 2 if allow_fail else 0, 1, 2, 2, 1, 2,
+               1 if allow_fail else 0, 1 if exotic else 0, 1 if allow_single else 0]
     kind = ch.weighted(weights, 'call.kind')
     named = (not positional_only) and ch.flag(1, 3, 'call.named')
     notification = allow_notification and ch.flag(1, 4, 'call.notification')
@@ -81,6 +82,15 @@ def logical_call(ch: Choices, tok: str, allow_fail: bool = True, allow_notificat
         method, argmap = 'typed', [('tok', tok), ('n', ch.choice([1, 0, -3, 2 ** 40], 'arg.n'))]
         if ch.flag(1, 2, 'call.label'):
             argmap.append(('label', ch.choice(['a', 'b'], 'arg.label')))
+    elif kind == 11:
+        method, argmap = 'fail_typed', [('tok', tok), ('resource', ch.choice(['r1', 7, None, ['x']], 'arg.resource'))]
+    elif kind == 12:
+        method, argmap = 'mixed_keys', [('tok', tok)]
+        if ch.flag(1, 2, 'call.n'):
+            argmap.append(('n', ch.choice([1, 0, 'x'], 'arg.n')))
+    elif kind == 13:
+        method, argmap = 'single', [('value', ch.choice([{'a': 1}, {'value': 2}, [1], 'v', 0, {}], 'arg.single'))]
+        tok = None  # type: ignore[assignment]
     elif kind == 10:
         method, argmap = 'vecho', [('tok', tok)]
         if ch.flag(2, 3, 'call.value'):
